@@ -130,6 +130,11 @@ impl ShutdownCoordinator {
       );
       return;
     }
+    crate::verif_event!(
+      "core.lingerstart",
+      "\"sock\":{},\"linger\":{},\"tm\":{}",
+      core_handle, linger_duration_option.map_or(-1i64, |d| d.as_millis() as i64), crate::verif::elapsed_ms()
+    );
     match linger_duration_option {
       None => {
         self.linger_deadline = None;
@@ -164,10 +169,22 @@ impl ShutdownCoordinator {
         handle = core_handle,
         "Linger check: All SocketCore pipes_tx empty. Linger can complete."
       );
+      crate::verif_event!(
+        "core.lingerdone",
+        "\"sock\":{},\"reason\":\"empty\",\"residue\":0,\"tm\":{}",
+        core_handle, crate::verif::elapsed_ms()
+      );
       return true;
     }
     if let Some(deadline) = self.linger_deadline {
       if Instant::now() >= deadline {
+        crate::verif_event!(
+          "core.lingerdone",
+          "\"sock\":{},\"reason\":\"expired\",\"residue\":{},\"tm\":{}",
+          core_handle,
+          core_s_reader.pipes_tx.values().map(|s| s.len()).sum::<usize>(),
+          crate::verif::elapsed_ms()
+        );
         tracing::debug!(
           handle = core_handle,
           "Linger deadline expired. Core pipes_tx empty: {}.",
